@@ -389,6 +389,12 @@ impl JobServer {
 
                     for fd in rfds.fds(None) {
                         if fd == self.params.token_fds.0 {
+                            if state.my_tokens >= 1 {
+                                // A child that exited in this same wake-up already
+                                // gave us a token; taking a second one would break
+                                // the "at most one token while waiting" rule.
+                                continue;
+                            }
                             let mut b: [u8; 1] = [0];
                             let read_result = try_read(self.params.token_fds.0, &mut b)
                                 .map_err(RedoError::opaque_error)?;
